@@ -30,19 +30,20 @@ type stask struct {
 func (t *stask) finished() bool { return t.kill || (t.total > 0 && t.trigger >= t.total) }
 
 type asim struct {
-	now                    int
-	tasks                  []*stask
-	table                  map[int]*stask
-	stopped                bool
-	mbox                   []*stask
-	live                   bool
-	inc                    int
-	idle                   int
-	expireAt               int  // -1 none
-	lastFire               int  // virtual time of the last firing (-1000 = none)
-	lastUser               int  // virtual time of the last firing of a user task
-	conflict               bool // an idle/expire termination fell within the margins of a user task\'s due time
-	anyAfterTerm, anyStale bool
+	now      int
+	tasks    []*stask
+	table    map[int]*stask
+	stopped  bool
+	mbox     []*stask
+	live     bool
+	inc      int
+	idle     int
+	expireAt int  // -1 none
+	lastFire int  // virtual time of the last firing (-1000 = none)
+	lastUser int  // virtual time of the last firing of a user task
+	conflict bool // an idle/expire termination fell within the margins of a user task\'s due time
+	anyStale bool
+	gterm    bool // a graceful OnTerminate is queued as a user message
 }
 
 func newAsim(idle, expire int) *asim {
@@ -73,6 +74,9 @@ func (s *asim) unregister(name int) {
 }
 
 func (s *asim) register(name, after, interval, total int) *stask {
+	if s.stopped {
+		return nil // a closed scheduler ignores registrations
+	}
 	t := &stask{id: len(s.tasks), name: name, after: clampMs(after), interval: clampMs(interval), total: total, base: s.now, inc: s.inc}
 	s.unregister(name)
 	s.tasks = append(s.tasks, t)
@@ -152,11 +156,8 @@ func (s *asim) turnCb(t *stask) {
 	wasLive := s.live
 	s.idleStop()
 	special := t.name == idleName || t.name == expireName
-	if !special {
+	if !special && s.live {
 		t.turns++
-		if !s.live {
-			s.anyAfterTerm = true
-		}
 		if t.inc != s.inc {
 			s.anyStale = true
 		}
@@ -172,10 +173,8 @@ func (s *asim) turnCb(t *stask) {
 				s.conflict = true
 			}
 		}
-		s.idleStop()
-		s.idleStart()
-		s.idleStop()
-		s.terminate()
+		// Terminate(self, true) is a USER message: it is taken after the callbacks queued so far
+		s.gterm = true
 	}
 }
 
@@ -184,6 +183,15 @@ func (s *asim) settle() {
 		t := s.mbox[0]
 		s.mbox = s.mbox[1:]
 		s.turnCb(t)
+	}
+	if s.gterm {
+		s.gterm = false
+		if s.live {
+			s.idleStop()
+			s.idleStart()
+			s.idleStop()
+			s.terminate()
+		}
 	}
 }
 
